@@ -129,6 +129,14 @@ CHECKS = {
         "'Quiescent' = the loop entered its OS wait primitive asking for >= 10 ms (recorded by a wrapper on selector.select / zmq poll / reactor.doIteration / a trio Instrument); wait durations are never used for verdicts. Ordering and idle rules are judged within one run() segment. glib is not installed.",
         "DESIGN.md §3 C13, §8",
     ),
+    "C08": (
+        "exploration",
+        "invariant monitor over histories with spy leaves: after every operation of a generated history (keys, button-1 presses, valid and invalid focus assignments, set_focus_path, contents edits, Frame/Overlay part replacement) every container of the tree is walked and each clause of the statement asserted; key offers are judged at the moment they are made, from the spies' logs",
+        "Nestings (depth <= 4) of Pile / Columns / GridFlow / Frame / Overlay / ListBox over flow and box spies (unique glyph per instance and focus flag) with a plain-Python shadow of what the edits put where; clauses: contents match the shadow, focus valid / None when empty, "
+        "IndexError on invalid assignment with nothing changed, keys offered only along the focus path, unhandled key returned unchanged, arrows land on selectable children, selectable() == any(child) after edits, only the focus path rendered with focus, save/restore of the focus path.",
+        "ListBox is exempt from 'arrows only onto selectable children' (documented: a scrolling ListBox focuses unselectable widgets) and may complete a deferred focus change while a key is offered. Crashes of render/keypress are by-catch (C01/C07 territory), counted, history cut. Histories are cut at the first WidgetWarning.",
+        "DESIGN.md §3 C08, §8",
+    ),
 }
 
 NA_REASON = "check not built yet in this round (see DESIGN.md §6 build order); no claim is made"
